@@ -756,9 +756,24 @@ class _JsonConversionHooks:
     def value_attr(self, ex, obj, attr, lineno):
         if isinstance(obj, SV) and obj.ty == TVal and attr == "items" and _in_gntt(ex):
             return BoundMethod(obj, None, "jsonprops.items")
+        if isinstance(obj, SV) and obj.ty == TVal and attr == "get" and _in_gntt(ex):
+            return BoundMethod(obj, None, "jsonnode.get")
+        return NotImplemented
+
+    def isinstance_(self, ex, v, cls):
+        if isinstance(cls, BuiltinV) and cls.name == "str" and _in_gntt(ex):
+            if v is None:
+                return False
+            if isinstance(v, SV) and v.ty == TVal:
+                return SV(type_is_hashable(v.term), TBool)  # the value of the `type` keyword is a string (not a list of strings)
         return NotImplemented
 
     def call_method(self, ex, recv, name, args, kwargs, lineno):
+        if name == "jsonnode.get" and len(args) == 1 and args[0] == "type":
+            # property_description.get("type"): None when the property schema has no type keyword
+            if ex.st.decide(node_has_type(recv.term)):
+                return SV(node_type(recv.term), TVal)
+            return None
         if name != "jsonprops.items":
             return NotImplemented
         # the value of the "properties" keyword read as the dictionary it is: name -> property schema
